@@ -92,7 +92,7 @@ def prepare(run, cid, tier):
             print("  the free-running -race pass reported a data race")
             outputs.append(f"VIOLATION property={cid} replay={rp}")
             rcs.append(1)
-        merge(V, cid, tier, scratch, refusal, time.time() - t0)
+        run.merge_parts(cid, tier, scratch, time.time() - t0, refusal=refusal, exhaustive_family="schedules")
         return finish(rcs, outputs, cid, t0)
     return runner
 
@@ -129,60 +129,3 @@ def finish(rcs, outputs, cid, t0):
     return 2
 
 
-def merge(V, cid, tier, scratch, refusal, wall):
-    parts = sorted(glob.glob(os.path.join(scratch, "part-*.json")))
-    if not parts:
-        return
-    evs = [json.load(open(p)) for p in parts]
-    cov = {"evaluations": 0, "distinct_nontrivial": 0, "states": 0, "transitions": 0, "families": {}, "samples": [], "exhaustive": True}
-    rules = []
-    viol = 0
-    known = set()
-    for ev in evs:
-        c = ev["coverage"]
-        viol += ev.get("violations", 0)
-        for k in ("evaluations", "distinct_nontrivial", "states", "transitions"):
-            cov[k] += c.get(k, 0)
-        for name, fam in c.get("families", {}).items():
-            m = cov["families"].setdefault(name, None)
-            if m is None:
-                cov["families"][name] = dict(fam)
-                rules.append(name + ": " + fam.get("rule", ""))
-                continue
-            for k in ("evaluations", "distinct_nontrivial", "states", "transitions"):
-                if k in fam:
-                    m[k] = m.get(k, 0) + fam[k]
-            m["exhaustive"] = m.get("exhaustive", True) and fam.get("exhaustive", True)
-            if "outcomes" in fam:
-                o = m.setdefault("outcomes", {})
-                for kk, vv in fam["outcomes"].items():
-                    o[kk] = o.get(kk, 0) + vv
-            for k in ("max_depth", "max_decisions_per_execution", "distinct_goroutine_completion_orders"):
-                if k in fam:
-                    m[k] = max(m.get(k, 0), fam[k])
-            m["wall_s"] = max(m.get("wall_s", 0), fam.get("wall_s", 0))
-        if not cov["samples"]:
-            cov["samples"] = c.get("samples", [])
-        for k in c.get("known_findings_hit", []):
-            known.add(k)
-    # exhaustive refers to the controlled exploration; the race pass is sampling by nature
-    sched = cov["families"].get("schedules")
-    cov["exhaustive"] = bool(sched and sched.get("exhaustive")) and refusal is None
-    for fam in cov["families"].values():
-        fam["distinct_outcomes"] = len(fam.get("outcomes", {}))
-    cov["rule"] = " || ".join(sorted(rules))
-    cov["traces_validated_against_impl"] = cov["transitions"]
-    cov["processes"] = len(parts)
-    if refusal:
-        cov["uninstrumentable"] = refusal
-        cov["explanation"] = "controlled exploration skipped: " + refusal
-    if cov["states"] == 0:
-        del cov["states"], cov["transitions"], cov["traces_validated_against_impl"]
-    if known:
-        cov["known_findings_hit"] = sorted(known)
-    out = {"property_id": cid, "tier": tier, "seed": int(os.environ.get("VERIF_SEED", "0") or 0), "level": "model_checking",
-           "coverage": cov, "assumptions": evs[0].get("assumptions", []), "wall_s": round(wall, 3), "violations": viol}
-    os.makedirs(os.path.join(V, "evidence"), exist_ok=True)
-    with open(os.path.join(V, "evidence", cid + ".json"), "w") as fh:
-        json.dump(out, fh, indent=1)
-        fh.write("\n")
